@@ -538,6 +538,8 @@ fn new_device(path: &str, blocks: u64, version: u32) {
 
 struct Workload {
     keys: Vec<Vec<u8>>,
+    /// what the store held when it was closed: `key:ts:exp:vlen:fnv(value)` per key (None if it never opened)
+    fin: Option<Vec<String>>,
 }
 
 /// run a random workload on a real store at `path`; returns after a clean drop
@@ -577,16 +579,37 @@ fn run_workload(rng: &mut Rng, path: &str, blocks: u64, version: u32, ttl: bool,
                         let _ = store.insert_with_timestamp(&k, &v, ts);
                     }
                 }
-                6 | 7 => { let _ = store.delete(&k); }
+                6 => { let _ = store.delete(&k); }
+                7 => {
+                    // the other writing calls reach the device through the same record writer: a swap (also to
+                    // an empty or an over-long value, which the format cannot hold and the call must refuse), a
+                    // counter, a TTL change, a zero-copy insert
+                    match rng.below(5) {
+                        0 => {
+                            if let Ok(cur) = store.get(&k) {
+                                let nv = match rng.below(5) { 0 => vec![], 1 => vec![7u8; (4 << 20) + 1], _ => { let n = rng.range(1, 5000) as usize; rng.bytes(n) } };
+                                let _ = store.compare_and_swap(&k, &cur, &nv);
+                            }
+                        }
+                        1 => { let _ = store.atomic_increment(b"zcounter", rng.range(1, 9) as i64); }
+                        2 => { if ttl && version != 1 { let _ = store.update_ttl(&k, *rng.pick(&[1u64, 30, 100_000])); } }
+                        3 => { let n = rng.range(1, 6000) as usize; let _ = store.insert_bytes(&k, bytes::Bytes::from(rng.bytes(n))); }
+                        _ => { let _ = store.delete(&k); }
+                    }
+                }
                 8 => { let _ = store.flush(); }
                 _ => { let _ = store.get(&k); }
             }
         }
-        let _ = store.flush();
+        // (the device is small: only an acknowledged final flush makes the file say what the store holds)
+        let flushed = store.flush().is_ok();
+        let fin = contents(&store);
         drop(store);
+        feoxdb::verif::clock::unpin();
+        return Workload { keys, fin: if flushed { Some(fin) } else { None } };
     }
     feoxdb::verif::clock::unpin();
-    Workload { keys }
+    Workload { keys, fin: None }
 }
 
 fn restamp_journal_checksum(_slot: &mut [u8]) {}
@@ -1151,7 +1174,7 @@ fn clock_floor_check(image: &str, amb: bool, ttl: bool, now: u64, dir: &str) {
         for rec in store.verif_snapshot() {
             let shard = store.verif_clock_shard(&rec.key);
             let clock = store.verif_clock_value(shard);
-            if clock < rec.timestamp && bad.is_none() {
+            if clock < rec.timestamp && rec.timestamp != u64::MAX && bad.is_none() {
                 bad = Some(format!("clockfloor: after recovering {} (now={}) key {} is indexed with timestamp {} but its clock shard stands at {}: the next automatic version would not exceed it", image, now, hex(&rec.key), rec.timestamp, clock));
             }
         }
@@ -1189,6 +1212,37 @@ fn sec_recover(s: &mut Sink, rng: &mut Rng, workloads: usize, mutations: usize) 
         let wl = run_workload(rng, &path, blocks, version, ttl, now, steps);
         let _ = wl.keys;
         let pristine = std::fs::read(&path).unwrap();
+        // a file the store wrote and closed in good order reopens, and to what the store held (judged without the
+        // model; TTL off and the clock where it was, so that nothing expires in between)
+        if let Some(fin) = &wl.fin {
+            let cp = format!("{}/dev{}_cleanclose.feox", s.dir, w);
+            std::fs::write(&cp, &pristine).unwrap();
+            feoxdb::verif::clock::pin(now);
+            let r = catch_unwind(AssertUnwindSafe(|| FeoxStore::builder().device_path(cp.clone()).hash_bits(6).enable_caching(false).enable_ttl(false).build()
+                .map(|st| { let c = contents(&st); drop(st); c }).map_err(|e| err_name(&e).to_string())));
+            feoxdb::verif::clock::unpin();
+            *s.hist.entry("clean-close-reopen-compared".into()).or_insert(0) += 1;
+            let strip = |l: &String| -> String { let t: Vec<&str> = l.split(':').collect(); if t.len() == 5 && t[4].starts_with('E') { t[..4].join(":") + ":?" } else { l.clone() } };
+            let problem = match r {
+                Err(_) => Some("the reopen panics".to_string()),
+                Ok(Err(e)) => Some(format!("it does not reopen: {}", e)),
+                Ok(Ok(got)) => {
+                    // (an entry that was already past its expiry at close reads as an error on the TTL-enabled side only)
+                    let a: Vec<String> = fin.iter().map(|l| { let t: Vec<&str> = l.split(':').collect(); if t.len() == 5 && t[4].starts_with('E') { t[..4].join(":") } else { l.clone() } }).collect();
+                    let b: Vec<String> = got.iter().zip(fin.iter()).map(|(g, f)| if strip(f).ends_with(":?") { let t: Vec<&str> = g.split(':').collect(); t[..4.min(t.len())].join(":") } else { g.clone() }).collect();
+                    if got.len() != fin.len() || a != b {
+                        let k = a.iter().zip(b.iter()).position(|(x, y)| x != y).unwrap_or(a.len().min(b.len()));
+                        Some(format!("it reopens to {} keys where the store held {} at close; first difference: held {:?}, reopened {:?}", got.len(), fin.len(), a.get(k), b.get(k)))
+                    } else { None }
+                }
+            };
+            if let Some(why) = problem {
+                let keep = format!("{}/dev{}_cleanclose.image", s.dir, w);
+                std::fs::write(&keep, &pristine).unwrap();
+                RECOVER_ORACLE.lock().unwrap().push(format!("cleanclose: format v{} device {} written by the store (inserts, swaps, counters, TTL changes, deletes, flushes) and closed in good order: {}", version, keep, why));
+            }
+            let _ = std::fs::remove_file(&cp);
+        }
         // 1. the flushed, cleanly closed file as it is (C10: independent reader)
         let later = now + *rng.pick(&[0u64, 2_000_000_000, 6_000_000_000, 2_000_000_000_000]);
         let ttl_open = ttl && version != 1 && (dupgen || rng.chance(3, 4));
